@@ -265,6 +265,15 @@ def check(model, rep):
     sxm.POSITIVE_ATOMS.update(pos)
     sxm.NONNEG_ATOMS.clear()
     sxm.NONNEG_ATOMS.update(nonneg_atoms(sx, 'DCMotor') - pos)
+    # the laws are stated for the motors the constructor admits (w0 > 0, Tmax > 0, imax > 0, i0 >= 0): the normal forms below use
+    # these signs.  When they cannot be derived from the constructor (its validation was rewritten beyond the evaluator, or dropped -
+    # which is C19's finding), a mismatch of terms would not be a verdict about the laws: undecided
+    need_pos = {'self.no_load_speed', 'self.maximum_torque', 'self.maximum_electric_current'}
+    missing = sorted(need_pos - pos) + sorted({'self.no_load_electric_current'} - pos - sxm.NONNEG_ATOMS)
+    if missing:
+        rep.cannot('C08.law', 'DCMotor.__init__:parameter-signs', f'the signs of {missing} are not established by the constructor as far as '
+                   f'the evaluator can tell; the laws are compared under those signs')
+        return
     ctx = sx.ctx
     spec = SpecCtx(sx, 'DCMotor', symbols=SYMS)
     show = sx.show
